@@ -121,6 +121,8 @@ def gen_config(rng, tier, opts):
                                       {"consistency": True, "mse_of_estimators": False, "mse_of_empi_dists": True, "physicality_violation": True}]),
         "is_computation_time_required": rng.random() < 0.7,
     }
+    if rng.random() < 0.2:
+        cfg["duplicate_case_names"] = True
     if rng.random() < 0.12:
         cfg["parent_atol"] = rng.choice([1e-6, 1e-6, 1e-9, 1e-4])  # the caller changed quara's global tolerance before the run
     if not cfg["is_computation_time_required"]:
@@ -203,7 +205,8 @@ def build_test_setting(cfg):
         n_rep=cfg["n_rep"],
         num_data=list(cfg["num_data"]),
         schedules="all",
-        case_names=[f"case{i}:{c['estimator']}" for i, c in enumerate(cfg["cases"])],
+        # case names are free-form labels: some configurations give several cases the same one
+        case_names=[(f"{c['estimator']}" if cfg.get("duplicate_case_names") else f"case{i}:{c['estimator']}") for i, c in enumerate(cfg["cases"])],
         estimators=estimators,
         eps_proj_physical_list=[c["eps_proj_physical"] for c in cfg["cases"]],
         eps_truncate_imaginary_part_list=[1e-5 for _ in cfg["cases"]],
